@@ -173,6 +173,8 @@ async def run(ctx) -> None:
             return [0.01]
         d = plan.decide(f"echo/{ser.name[-1]}/{phase_of(line)}/{nth}",
                         lambda rr: "lost" if rr.random() < k("p_echo_lost", 0.0) else ("dup" if rr.random() < k("p_echo_dup", 0.0) else "ok"), "ok")
+        if d != "ok":
+            ctx.ab(f"e{ser.name[-1]}{phase_of(line)[:2]}{nth}:{d[:2]}")
         if d == "lost":
             hub.count("echo_lost")
             lossy[0] = True  # the sender will re-transmit or give up: not a loss-free run any more
@@ -207,6 +209,7 @@ async def run(ctx) -> None:
             return out
 
         d = plan.decide(key, gen, ["ok"])
+        ctx.ab(f"{ser.name[-1]}{phase_of(line)[:2]}{nth}:{d[0][:2]}{'+d' if 'dup' in d else ''}")
         if d[0] == "drop":
             hub.count("rf_drop")
             lossy[0] = True
@@ -528,6 +531,7 @@ async def run_scripted(ctx) -> None:
     strict = not lossy[0] and not late[0]
     name = real
     ctx.ab(f"{real}:{st}:{'strict' if strict else 'lossy'}")
+    ctx.ab("|".join(f"{ph[:2]}{v['n']}{'L' if v['lost'] else ''}@{v['lat']}" for ph, v in sorted(k("script").items())))
     if st == "hang":
         ctx.violate("C20", "never_ends", name, f"scripted peer: the {name}'s attempt had not ended after {dur:.1f} s")
     elif st == "exc":
